@@ -282,6 +282,35 @@ static std::string run_rns(const std::string& hist, const std::string& order, co
     return o.str();
 }
 
+// RNSsystem<RING, Domain> with RING other than Integer (int64_t / double; the product of the moduli stays below 2^50)
+//   ringrns <i64|dbl> <fresh|copywarm|setwarm|assigncc> n p1..pn r1..rn a   -> digits | V | residues of a | RnsToRing(RingToRns(a))
+template <class RING, class Dom>
+static std::string run_ring(const std::string& hist, const IV& P, const IV& R, const Integer& a) {
+    typedef RNSsystem<RING, Dom> RNS;
+    typedef typename RNS::domains Domains;
+    typedef typename RNS::array Elements;
+    const size_t n = P.size();
+    Domains D(n); Elements E(n), Ones(n);
+    for (size_t i = 0; i < n; ++i) { D[i] = Dom(P[i]); D[i].init(E[i], R[i]); D[i].init(Ones[i], Integer(1)); }
+    IV O = other_primes(n); Domains OD(O.size()); Elements OE(O.size());
+    for (size_t i = 0; i < O.size(); ++i) { OD[i] = Dom(O[i]); OD[i].init(OE[i], Integer(1)); }
+    RING dump; RNS* S = 0; RNS* aux = 0;
+    if (hist == "fresh") S = new RNS(D);
+    else if (hist == "copywarm") { aux = new RNS(D); aux->RnsToRing(dump, Ones); S = new RNS(*aux); delete aux; aux = 0; }
+    else if (hist == "setwarm") { S = new RNS(OD); S->RnsToRing(dump, OE); S->setPrimes(D); }
+    else if (hist == "assigncc") { aux = new RNS(D); S = new RNS(OD); S->RnsToRing(dump, OE); *S = *aux; delete aux; aux = 0; }
+    else return "BAD-HIST";
+    std::ostringstream o; Integer t;
+    Elements mix; S->RnsToMixedRadix(mix, E);
+    for (size_t i = 0; i < mix.size(); ++i) o << D[i].convert(t, mix[i]) << " ";
+    RING V = RING(-1); S->RnsToRing(V, E); o << "| " << Integer(V) << " | ";
+    Elements rr(1); S->RingToRns(rr, (RING)(int64_t)a);
+    for (size_t i = 0; i < rr.size(); ++i) o << D[i < n ? i : 0].convert(t, rr[i]) << " ";
+    RING W = RING(-7); S->RnsToRing(W, rr); o << "| " << Integer(W);
+    delete S;
+    return o.str();
+}
+
 // MixedRadixToRing where the code raises GivError: a system without primes, a digit array of another size than the system
 template <class Dom>
 static std::string run_rnsexc(const IV& P, const IV& Dg) {
@@ -479,7 +508,8 @@ int main() {
         std::string out = "BAD-LINE";
         c14_arm();                               // CPU-time budget for this case (c14_watchdog.h)
         try {
-            if (t[0] == "spin") { volatile unsigned long x = 0; for (;;) ++x; }        // self-test of the watchdog (never generated by the check)
+            if (t[0] == "others") { IV o = other_primes(1000); std::ostringstream q; for (size_t i = 0; i < o.size(); ++i) q << o[i] << " "; out = q.str(); }
+            else if (t[0] == "spin") { volatile unsigned long x = 0; for (;;) ++x; }        // self-test of the watchdog (never generated by the check)
             if (t[0] == "maxcard") {
                 std::ostringstream o;
                 if (t[1] == "mdouble") o << Integer(Modular<double>::maxCardinality());
@@ -531,6 +561,16 @@ int main() {
                     else if (sub == "mbd") out = run_rns<ModularBalanced<double> >(hist, order, P, R, a);
                     else out = "BAD-DOM";
                 }
+            } else if (t[0] == "ringrns") {
+                const std::string ring = t[1], hist = t[2]; size_t k = 3;
+                size_t n = (size_t)atol(t[k++].c_str());
+                IV P, R;
+                for (size_t i = 0; i < n; ++i) P.push_back(parseI(t[k++]));
+                for (size_t i = 0; i < n; ++i) R.push_back(parseI(t[k++]));
+                Integer a = parseI(t[k++]);
+                if (ring == "i64") out = run_ring<int64_t, Modular<int32_t> >(hist, P, R, a);
+                else if (ring == "dbl") out = run_ring<double, Modular<double> >(hist, P, R, a);
+                else out = "BAD-RING";
             } else if (t[0] == "rnsexc") {
                 // rnsexc <dom> n p1..pn m d1..dm : MixedRadixToRing of m digits on a system with n primes (n = 0: default-constructed)
                 const std::string sub = t[1]; size_t k = 2;
